@@ -108,6 +108,18 @@ Gen(e, st, n, D) ==
              st2 == IF e.self = "" THEN st ELSE <<[l |-> e.self, p |-> fname]>> \o st
              d == GenFnDef(fname, e.ps, e.mps, e.xs, st2, n + 1, D)
          IN [deps |-> <<d.def>>, node |-> Name(fname), n |-> d.n]
+    [] e.t = "mfn" ->       \* one Python def per arity + a dispatch function on the argument count (PyIR mdef)
+         LET fname == IF e.self = "" THEN Nm("lisp_fn", n) ELSE Nm(e.self, n)
+             st2 == IF e.self = "" THEN st ELSE <<[l |-> e.self, p |-> fname]>> \o st
+             RECURSIVE ArDefs(_, _)
+             ArDefs(i, m) == IF i > Len(e.ars) THEN [ars |-> <<>>, n |-> m]
+                             ELSE LET a == e.ars[i]
+                                      ps == IF a.rest = "" THEN a.ps ELSE Append(a.ps, a.rest)
+                                      d == GenFnDef(Nm("arity", m), ps, a.mps, a.xs, st2, m + 1, D)
+                                      r == ArDefs(i + 1, d.n)
+                                  IN [ars |-> <<[def |-> d.def, nfix |-> Len(a.ps), var |-> (a.rest # "")]>> \o r.ars, n |-> r.n]
+             ds == ArDefs(1, n + 1)
+         IN [deps |-> <<[s |-> "mdef", n |-> fname, ars |-> ds.ars]>>, node |-> Name(fname), n |-> ds.n]
     [] e.t = "call" ->
          LET ag == GenSeq(<<e.f>> \o e.args, st, n, D)
          IN [deps |-> ag.deps, node |-> [k |-> "call", f |-> ag.nodes[1], args |-> Tail(ag.nodes)], n |-> ag.n]
@@ -175,6 +187,7 @@ DupParams(e) ==
     [] e.t \in {"let", "loop"} -> (\E i \in 1..Len(e.bs) : DupParams(e.bs[i].e)) \/ DupParamsSeq(e.xs)
     [] e.t = "recur" -> DupParamsSeq(e.args)
     [] e.t = "fn" -> e.mdup \/ DupParamsSeq(e.xs)
+    [] e.t = "mfn" -> \E i \in 1..Len(e.ars) : e.ars[i].mdup \/ DupParamsSeq(e.ars[i].xs)
     [] e.t = "call" -> DupParams(e.f) \/ DupParamsSeq(e.args)
     [] e.t = "vec" -> DupParamsSeq(e.xs)
     [] e.t = "callall" -> DupParams(e.e)
